@@ -121,6 +121,9 @@ def run_loop(c):
                         what, fl(p[0]), p[3], p[4], [(fl(k), d) for k, d in ks]), "refine-split-wrong-cell")
         if any(len(p[3]) == 0 for p in snap):
             cls.append("empty-map")
+        if any(0 < abs((p[0][2] - p[0][0]) - (p[0][3] - p[0][1])) <= Fr(2, 1000) * (p[0][2] - p[0][0]) and len(p[3]) > 0
+               and all(Fr(v) <= Fr(t) for v in p[3].values()) for p in snap):
+            cls.append("almost-square-cell-split")
         if any(Fr(v) == Fr(t) for p in snap for v in p[3].values()):
             cls.append("ratio==threshold")
         alloc, snap = new_alloc, new
@@ -226,7 +229,7 @@ def loop_s(draw):
 def subchecks():
     return [
         Sub("loop", run_loop, strategy=loop_s(), n_quick=4000, n_thorough=100000, fuzz_thorough=2000,
-            required=("empty-map", "ratio==threshold", "stable", "loop")),
+            required=("empty-map", "ratio==threshold", "stable", "loop", "almost-square-cell-split")),
         Sub("uniform", run_uniform, strategy=A.alloc_case(), n_quick=2000, n_thorough=50000, fuzz_thorough=1000, required=("uniform-split",)),
         Sub("grid", run_grid, strategy=A.alloc_case(), n_quick=4000, n_thorough=100000, fuzz_thorough=2000,
             required=("x-boundaries!=y-boundaries", "more-y-than-x", "sliver-exception-used", "cut-applied")),
